@@ -185,6 +185,9 @@ class World:
         if isinstance(f, types.MethodType):
             recv, func = f.__self__, f.__func__
         elif isinstance(f, types.BuiltinMethodType) and getattr(f, '__self__', None) is not None and not isinstance(f.__self__, types.ModuleType):
+            try: m0 = self.builtin_models.get(f)
+            except TypeError: m0 = None
+            if m0 is not None: return m0(it, *args, **kw)
             return self.call_builtin_method(it, f, args, kw)
         base = _unwrap(func)
         c = self.contracts.get(base) or self.contracts.get(f)
@@ -343,6 +346,9 @@ def _b_getattr(it, obj, name, default=NotImplemented):
     except PyExc as e:
         if issubclass(e.cls, AttributeError) and default is not NotImplemented: return default
         raise
+def _b_setattr(it, obj, name, v):
+    if is_sym(name): raise Outside('computed setattr')
+    it.setattr(obj, name, v)
 def _b_hasattr(it, obj, name):
     try: it.getattr(obj, name); return True
     except PyExc as e:
@@ -410,7 +416,7 @@ DEFAULT_BUILTINS = {
     len: _b_len, isinstance: _b_isinstance, type: _b_type, tuple: _b_tuple, list: _b_list, iter: _b_iter,
     reversed: _b_reversed, enumerate: _b_enumerate, zip: _b_zip, map: _b_map, filter: _b_filter,
     any: _b_any, all: _b_all, min: _minmax(True), max: _minmax(False), sum: _b_sum, bool: _b_bool, int: _b_int,
-    str: _b_str, repr: _b_repr, id: _b_id, hash: _b_hash, getattr: _b_getattr, hasattr: _b_hasattr,
+    str: _b_str, repr: _b_repr, id: _b_id, hash: _b_hash, getattr: _b_getattr, hasattr: _b_hasattr, setattr: _b_setattr,
     callable: _b_callable, sorted: _b_sorted, set: _b_set, frozenset: _b_frozenset, dict: _b_dict, range: _b_range,
     abs: _b_abs, next: _b_next, functools.reduce: _b_reduce, itertools.starmap: _b_starmap,
     itertools.chain: _b_chain, itertools.chain.from_iterable: _b_chain_from, itertools.product: _b_product,
